@@ -200,5 +200,30 @@ def replay(v):
             print('  %s:\n     concurrent: %s\n     sequential: %s' % (k, json.dumps(o.get(k))[:400], json.dumps(seq[k])[:400]))
     labels = [p[2] for p in s.points]
     print('  schedule points:', len(labels), 'switches at', [(i, labels[i]) for i, c in enumerate(s.choices) if c][:12])
+    # The recorded choice list only fits the code it was recorded on (another tree has other scheduling points), so
+    # the verdict comes from exploring the recorded *scenario* again, to the quick bound, with the check's own oracle.
+    verdict = _rejudge(ctx, v)
     ctx.sb.destroy()
-    return 0 if o == seq else 1
+    return verdict
+
+
+def _rejudge(ctx, v):
+    from .. import engine
+    import importlib
+    mod = importlib.import_module('fbmc.' + v.get('engine', 'checks.c09'))
+    name = v['history'].get('name')
+    if mod.__name__.endswith('c08'):
+        res = mod.thread_work(ctx, {'tier': 'quick', 'kind': 'thr', 'scenario': name}) if name in mod.thread_scenarios('quick') else None
+    else:
+        res = work(ctx, {'tier': 'quick', 'scenario': name}) if name in scenarios('quick') else None
+    if res is None:
+        print('  scenario %s is not part of the quick tier any more: judged by the recorded schedule only' % name)
+        return 1
+    if res.get('harness_error'):
+        print('  HARNESS', res['harness_error'])
+        return 2
+    findings = engine.load_findings()
+    new = [x for x in res['violations'] if engine.match_finding(x, findings) is None]
+    print('  re-explored scenario %s to the quick bound: %d executions, %d violations (%d not listed as open findings)' % (
+        name, res['counters'].get('executions', 0), len(res['violations']), len(new)))
+    return 1 if new else 0
